@@ -153,9 +153,16 @@ func (e *c16Env) anchor(key string) *flow.Func {
 	case "chooser": // the function that decides between the previous and a new session
 		get, nw := e.anchor("sessionGet"), e.anchor("sessionNew")
 		if get != nil && nw != nil {
+			// it creates the new session, and gets the previous one from the manager itself or from
+			// its caller (a *Session parameter)
 			f = e.pick(key, "Broker", "setSession", func(g *flow.Func, fd *ast.FuncDecl) bool {
-				return c16BodyCalls(g, func(call *ast.CallExpr) bool { return e.callTo(g, call, get) }) &&
-					c16BodyCalls(g, func(call *ast.CallExpr) bool { return e.callTo(g, call, nw) })
+				if !c16BodyCalls(g, func(call *ast.CallExpr) bool { return e.callTo(g, call, nw) }) {
+					return false
+				}
+				if c16BodyCalls(g, func(call *ast.CallExpr) bool { return e.callTo(g, call, get) }) {
+					return true
+				}
+				return c16SessionParam(g, fd) != nil
 			})
 		}
 	default:
@@ -379,4 +386,22 @@ func syncReach(e *c16Env, f *flow.Func, depth int) []*flow.Func {
 		frontier = next
 	}
 	return out
+}
+
+// c16SessionParam returns the single parameter of type *Session of fd (nil if none or several).
+func c16SessionParam(g *flow.Func, fd *ast.FuncDecl) *ast.Ident {
+	var out []*ast.Ident
+	if fd.Type.Params != nil {
+		for _, fld := range fd.Type.Params.List {
+			for _, nm := range fld.Names {
+				if o := g.Info.Defs[nm]; o != nil && c16PtrTo(o.Type(), "Session") {
+					out = append(out, nm)
+				}
+			}
+		}
+	}
+	if len(out) == 1 {
+		return out[0]
+	}
+	return nil
 }
